@@ -1388,8 +1388,16 @@ impl GRLParser {
         }
 
         // Try to parse function call pattern: functionName(arg1, arg2, ...) operator value
+        // (looked for outside string literals: `F.s == "f(x) > 2"` compares with a string)
+        let masked_clause = mask_strings(clause_to_parse);
         if let Some((function_name, args_str, operator_str, value_str)) =
-            match_function_condition(clause_to_parse)
+            match_function_condition(&masked_clause).map(|(n, a, o, v)| {
+                let at = |part: &str| {
+                    let start = part.as_ptr() as usize - masked_clause.as_ptr() as usize;
+                    &clause_to_parse[start..start + part.len()]
+                };
+                (at(n), at(a), o, at(v))
+            })
         {
             let function_name = function_name.to_string();
             let value_str = value_str.trim();
